@@ -256,10 +256,12 @@ func ruleGCCountdown(c *Ctx) {
 	// visitor closures passed to traverse
 	trav := p.Method("server.Subscription.traverse")
 	var visitors []*ssa.Function
-	for _, call := range callsIn(fn) {
-		if _, ok := isCallTo(call, trav); ok {
-			if mc, ok := stripConv(callArgs(call.Common())[2]).(*ssa.MakeClosure); ok {
-				visitors = append(visitors, mc.Fn.(*ssa.Function))
+	for _, g := range p.withHelpers(fn) {
+		for _, call := range callsIn(g) {
+			if _, ok := isCallTo(call, trav); ok {
+				if mc, ok := stripConv(callArgs(call.Common())[2]).(*ssa.MakeClosure); ok {
+					visitors = append(visitors, mc.Fn.(*ssa.Function))
+				}
 			}
 		}
 	}
@@ -271,7 +273,15 @@ func ruleGCCountdown(c *Ctx) {
 	c.inst(1)
 	isField := func(fa *ssa.FieldAddr, name string) bool {
 		f := fieldOfAddr(fa)
-		return f != nil && f.Name() == name && f.Pkg() != nil && f.Pkg().Name() == "server" && f != p.Field("server.Subscription."+name)
+		if f == nil || f.Pkg() == nil || f.Pkg().Name() != "server" {
+			return false
+		}
+		sf := p.Field("server.Subscription." + name)
+		want := name
+		if sf != nil {
+			want = sf.Name()
+		}
+		return strings.EqualFold(f.Name(), want) && f != sf
 	}
 	minus := func(v ssa.Value) (string, bool) {
 		b, ok := v.(*ssa.BinOp)
@@ -324,4 +334,30 @@ func ruleGCCountdown(c *Ctx) {
 	}
 	c.check(bad == "", fnName(v), "indirect and indirectsent are discounted together on every path of the count-down", p.Pos(v.Pos()), fmt.Sprintf("%d paths", len(tr.Paths)), bad)
 	_ = strings.Join
+}
+
+
+// withHelpers returns fn, its closures and, transitively, the unexported
+// functions of its package that it calls statically (extracted helpers).
+func (p *Prog) withHelpers(fn *ssa.Function) []*ssa.Function {
+	seen := map[*ssa.Function]bool{}
+	var out []*ssa.Function
+	var rec func(f *ssa.Function, depth int)
+	rec = func(f *ssa.Function, depth int) {
+		if seen[f] || depth > 4 {
+			return
+		}
+		seen[f] = true
+		for _, g := range WithClosures(f) {
+			out = append(out, g)
+			for _, call := range callsIn(g) {
+				sf := call.Common().StaticCallee()
+				if sf != nil && p.isRepoFn(sf) && sf.Pkg == TopLevel(fn).Pkg && sf.Object() != nil && !sf.Object().Exported() && sf.Parent() == nil {
+					rec(sf, depth+1)
+				}
+			}
+		}
+	}
+	rec(fn, 0)
+	return out
 }
